@@ -174,6 +174,7 @@ HANDLERS = {
     "h_fail_mid": handler(fail="mid", appends=[A1, A2U]),
     "h_fail_after": handler(fail="after", appends=[A1, A2U]),
     # C06: script-visible isolation
+    "h_eph_app": handler(appends=[dict(topic="o.a1", ttl="ephemeral"), dict(topic="o.a2")]),
     "h_eph_fail": handler(ttl="ephemeral", fail="before", appends=[A1]),
     "h_lazy": handler(appends=[A1, dict(topic="o.a2")], ret="list", lazy=True),
     "h_cat": handler(cat=True),
